@@ -197,14 +197,17 @@ func (r *c02Recv) OnDecodeError(ctx context.Context, err error, headers api.Head
 type idBaseSetter interface{ VerifSetStreamIDBase(uint64) }
 
 func c02Wrap(c *lab.Ctx) {
-	c.Rule("real xprotocol client stream connection, id counter pre-set to {0, wrap-40, wrap-3} per codec (bolt/boltv2: 2^32, tars: 2^31, dubbo: 2^64) so the counter wraps while 1..40 older requests are pending; reply sequences = permutation of the pending ids + duplicates + unknown ids; distinct = (codec, base class, pending, sequence hash)")
+	c.Rule("real xprotocol client stream connection, id counter pre-set to {0, wrap-40, wrap-3} per codec for every wrap point of a narrower view of the counter (bolt/boltv2: 2^32, 2^31, 2^33; tars: 2^31, 2^32, 3*2^31, 2^33; dubbo: 2^64, 2^63, 2^32) so the counter wraps while 1..40 older requests are pending; reply sequences = permutation of the pending ids + duplicates + unknown ids; distinct = (codec, base class, pending, sequence hash)")
 	registerCodecs()
 	rng := c.Rand("wrap")
 	cases := c.Pick(600, 6000)
 	reached := 0
 	for ci := 0; ci < cases; ci++ {
 		name := []string{"bolt", "boltv2", "dubbo", "tars"}[ci%4]
-		wrap := map[string]uint64{"bolt": 1 << 32, "boltv2": 1 << 32, "tars": 1 << 31, "dubbo": 0}[name]
+		// every point where a narrower view of the 64-bit counter wraps or changes sign: the unsigned and the signed 32-bit
+		// boundary for the 32-bit id fields (tars derives int32(counter+1): sign flip at 2^31, zero at 2^32), 2^63 and 2^64 for dubbo
+		wraps := map[string][]uint64{"bolt": {1 << 32, 1 << 31, 1 << 33}, "boltv2": {1 << 32, 1 << 31, 1 << 33}, "tars": {1 << 31, 1 << 32, 3 << 31, 1 << 33}, "dubbo": {0, 1 << 63, 1 << 32}}[name]
+		wrap := wraps[(ci/4)%len(wraps)]
 		n := 1 + rng.Intn(40)
 		var base uint64
 		baseClass := rng.Intn(3)
